@@ -573,7 +573,10 @@ impl Ir {
         k.budget -= 1;
         match ty {
             Ty::Prim(p) => match p {
-                Prim::String => Value::String(gen_string(t, k.wild_strings, 24)),
+                Prim::String => {
+                    let max = if t.chance(1, 40) { 1500 } else { 24 };
+                    Value::String(gen_string(t, k.wild_strings, max))
+                }
                 Prim::Integer => Value::Number(gen_i32(t).into()),
                 Prim::Double => f64_json(gen_f64(t)),
                 Prim::Safelong => Value::Number(gen_safelong(t).into()),
@@ -582,7 +585,10 @@ impl Ir {
                 Prim::Rid => Value::String(gen_rid_string(t, None)),
                 Prim::Bearertoken => Value::String(gen_token_string(t, None)),
                 Prim::Datetime => Value::String(gen_datetime_string(t)),
-                Prim::Binary => Value::String(b64(&gen_bytes(t, 24))),
+                Prim::Binary => {
+                    let max = if t.chance(1, 30) { 3000 } else { 24 };
+                    Value::String(b64(&gen_bytes(t, max)))
+                }
                 Prim::Any => Value::Null,
             },
             Ty::Opt(inner) => {
